@@ -1,7 +1,8 @@
-(* Proofs about the exact-flag model Fmt/Flag.v: the statement "anything
-   computed from an approximate value stays marked" is refuted by the
-   faithful model (x + approximate-zero keeps x's flag), and holds outside
-   that class; the value computed is always the exact value. *)
+(* Proofs about the exact-flag model Fmt/Flag.v.  With Value::add as repaired
+   by fend commit 198ba44 the flag of a result is exactly "no approximate
+   operand occurs" (full strength).  The model of the code before that commit
+   is kept: there the statement is refuted (x + approximate-zero kept x's
+   flag) and holds outside that class. *)
 From FendV Require Import Base.Prelude Fmt.Flag.
 From Coq Require Import QArith Lia.
 Open Scope N_scope.
@@ -15,26 +16,27 @@ Qed.
 Lemma qzero_iff : forall q, qzero q = true <-> (q == 0)%Q.
 Proof. intros. unfold qzero. apply Qeq_bool_iff. Qed.
 
-Theorem flag_monotone_refuted_lemma :
-  exists e v, uses_approx e = true /\ feval e = Ok (v, true).
+Theorem flag_monotone_old_refuted_lemma :
+  exists e v, uses_approx e = true /\ feval_old e = Ok (v, true).
 Proof. exists (FAdd (FLit 1) (FApprox (FLit 0))), 1%Q. split; reflexivity. Qed.
 
-Theorem flag_monotone_except_known_lemma : forall e v fl,
+Theorem flag_monotone_old_except_known_lemma : forall e v fl,
   known_C03_add_approx_zero e = false -> uses_approx e = true ->
-  feval e = Ok (v, fl) -> fl = false.
+  feval_old e = Ok (v, fl) -> fl = false.
 Proof.
+  unfold feval_old.
   induction e as [q|e IH|e IH|a IHa b IHb|a IHa b IHb|a IHa b IHb|a IHa b IHb];
-    intros v fl Hk Hu H; cbn [feval uses_approx known_C03_add_approx_zero] in *.
+    intros v fl Hk Hu H; cbn [feval_with uses_approx known_C03_add_approx_zero] in *.
   - discriminate.
-  - destruct (feval e) as [[v0 f0]| |]; cbn [bind] in H; try discriminate. injection H as _ <-. reflexivity.
-  - destruct (feval e) as [[v0 f0]| |] eqn:E; cbn [bind] in H; try discriminate. injection H as _ <-.
+  - destruct (feval_with vadd_old e) as [[v0 f0]| |]; cbn [bind] in H; try discriminate. injection H as _ <-. reflexivity.
+  - destruct (feval_with vadd_old e) as [[v0 f0]| |] eqn:E; cbn [bind] in H; try discriminate. injection H as _ <-.
     cbn [snd]. eapply IH; eauto.
   - (* add *)
     apply Bool.orb_false_iff in Hk as [Hk Hkb]. apply Bool.orb_false_iff in Hk as [Haz Hka].
-    destruct (feval a) as [[va fa]| |] eqn:Ea; cbn [bind] in H; try discriminate.
-    destruct (feval b) as [[vb fb]| |] eqn:Eb; cbn [bind] in H; try discriminate.
-    unfold approx_zero in Haz. rewrite Eb in Haz.
-    unfold vadd in H. cbn [fst snd] in H.
+    destruct (feval_with vadd_old a) as [[va fa]| |] eqn:Ea; cbn [bind] in H; try discriminate.
+    destruct (feval_with vadd_old b) as [[vb fb]| |] eqn:Eb; cbn [bind] in H; try discriminate.
+    unfold approx_zero, feval_old in Haz. rewrite Eb in Haz.
+    unfold vadd_old in H. cbn [fst snd] in H.
     destruct (uses_approx a) eqn:Ua.
     + assert (fa = false) by (eapply IHa; eauto). subst fa.
       destruct (qzero vb); injection H as _ <-; reflexivity.
@@ -42,10 +44,10 @@ Proof.
       destruct (qzero vb); [cbn in Haz; discriminate|]. injection H as _ <-. apply Bool.andb_false_r.
   - (* sub *)
     apply Bool.orb_false_iff in Hk as [Hk Hkb]. apply Bool.orb_false_iff in Hk as [Haz Hka].
-    destruct (feval a) as [[va fa]| |] eqn:Ea; cbn [bind] in H; try discriminate.
-    destruct (feval b) as [[vb fb]| |] eqn:Eb; cbn [bind] in H; try discriminate.
-    unfold approx_zero in Haz. rewrite Eb in Haz.
-    unfold vadd in H. cbn [fst snd] in H. rewrite qzero_opp in H.
+    destruct (feval_with vadd_old a) as [[va fa]| |] eqn:Ea; cbn [bind] in H; try discriminate.
+    destruct (feval_with vadd_old b) as [[vb fb]| |] eqn:Eb; cbn [bind] in H; try discriminate.
+    unfold approx_zero, feval_old in Haz. rewrite Eb in Haz.
+    unfold vadd_old in H. cbn [fst snd] in H. rewrite qzero_opp in H.
     destruct (uses_approx a) eqn:Ua.
     + assert (fa = false) by (eapply IHa; eauto). subst fa.
       destruct (qzero vb); injection H as _ <-; reflexivity.
@@ -53,16 +55,16 @@ Proof.
       destruct (qzero vb); [cbn in Haz; discriminate|]. injection H as _ <-. apply Bool.andb_false_r.
   - (* mul *)
     apply Bool.orb_false_iff in Hk as [Hka Hkb].
-    destruct (feval a) as [[va fa]| |] eqn:Ea; cbn [bind] in H; try discriminate.
-    destruct (feval b) as [[vb fb]| |] eqn:Eb; cbn [bind] in H; try discriminate.
+    destruct (feval_with vadd_old a) as [[va fa]| |] eqn:Ea; cbn [bind] in H; try discriminate.
+    destruct (feval_with vadd_old b) as [[vb fb]| |] eqn:Eb; cbn [bind] in H; try discriminate.
     injection H as _ <-. cbn [snd].
     destruct (uses_approx a) eqn:Ua.
     + assert (fa = false) by (eapply IHa; eauto). subst fa. reflexivity.
     + cbn [orb] in Hu. assert (fb = false) by (eapply IHb; eauto). subst fb. apply Bool.andb_false_r.
   - (* div *)
     apply Bool.orb_false_iff in Hk as [Hka Hkb].
-    destruct (feval a) as [[va fa]| |] eqn:Ea; cbn [bind] in H; try discriminate.
-    destruct (feval b) as [[vb fb]| |] eqn:Eb; cbn [bind] in H; try discriminate.
+    destruct (feval_with vadd_old a) as [[va fa]| |] eqn:Ea; cbn [bind] in H; try discriminate.
+    destruct (feval_with vadd_old b) as [[vb fb]| |] eqn:Eb; cbn [bind] in H; try discriminate.
     cbn [fst snd] in H. destruct (qzero vb); try discriminate.
     injection H as _ <-.
     destruct (uses_approx a) eqn:Ua.
@@ -70,34 +72,81 @@ Proof.
     + cbn [orb] in Hu. assert (fb = false) by (eapply IHb; eauto). subst fb. apply Bool.andb_false_r.
 Qed.
 
-(* the flag is never wrongly cleared: an expression without approximate
-   leaves evaluates with the flag set *)
+(* ------------------------------------------------------------------ *)
+(* the repaired code: the flag is exactly "no approximate operand" *)
+
+Theorem flag_exactly_lemma : forall e v fl,
+  feval e = Ok (v, fl) -> fl = negb (uses_approx e).
+Proof.
+  unfold feval.
+  induction e as [q|e IH|e IH|a IHa b IHb|a IHa b IHb|a IHa b IHb|a IHa b IHb];
+    intros v fl H; cbn [feval_with uses_approx] in *.
+  - injection H as _ <-. reflexivity.
+  - destruct (feval_with vadd e) as [[v0 f0]| |]; cbn [bind] in H; try discriminate. injection H as _ <-. reflexivity.
+  - destruct (feval_with vadd e) as [[v0 f0]| |] eqn:E; cbn [bind] in H; try discriminate. injection H as _ <-.
+    cbn [snd]. eapply IH; eauto.
+  - destruct (feval_with vadd a) as [[va fa]| |] eqn:Ea; cbn [bind] in H; try discriminate.
+    destruct (feval_with vadd b) as [[vb fb]| |] eqn:Eb; cbn [bind] in H; try discriminate.
+    rewrite (IHa _ _ eq_refl), (IHb _ _ eq_refl) in H. unfold vadd in H. cbn [fst snd] in H.
+    rewrite Bool.negb_orb. destruct (qzero vb); injection H as _ <-; reflexivity.
+  - destruct (feval_with vadd a) as [[va fa]| |] eqn:Ea; cbn [bind] in H; try discriminate.
+    destruct (feval_with vadd b) as [[vb fb]| |] eqn:Eb; cbn [bind] in H; try discriminate.
+    rewrite (IHa _ _ eq_refl), (IHb _ _ eq_refl) in H. unfold vadd in H. cbn [fst snd] in H.
+    rewrite Bool.negb_orb. destruct (qzero (- vb)); injection H as _ <-; reflexivity.
+  - destruct (feval_with vadd a) as [[va fa]| |] eqn:Ea; cbn [bind] in H; try discriminate.
+    destruct (feval_with vadd b) as [[vb fb]| |] eqn:Eb; cbn [bind] in H; try discriminate.
+    rewrite (IHa _ _ eq_refl), (IHb _ _ eq_refl) in H. injection H as _ <-. cbn [snd].
+    rewrite Bool.negb_orb. reflexivity.
+  - destruct (feval_with vadd a) as [[va fa]| |] eqn:Ea; cbn [bind] in H; try discriminate.
+    destruct (feval_with vadd b) as [[vb fb]| |] eqn:Eb; cbn [bind] in H; try discriminate.
+    rewrite (IHa _ _ eq_refl), (IHb _ _ eq_refl) in H. cbn [fst snd] in H.
+    destruct (qzero vb); try discriminate. injection H as _ <-. rewrite Bool.negb_orb. reflexivity.
+Qed.
+
+Theorem flag_monotone_lemma : forall e v fl,
+  uses_approx e = true -> feval e = Ok (v, fl) -> fl = false.
+Proof. intros e v fl Hu H. rewrite (flag_exactly_lemma e v fl H), Hu. reflexivity. Qed.
+
 Theorem flag_exact_when_no_approx_lemma : forall e v fl,
   uses_approx e = false -> feval e = Ok (v, fl) -> fl = true.
+Proof. intros e v fl Hu H. rewrite (flag_exactly_lemma e v fl H), Hu. reflexivity. Qed.
+
+(* the value is the exact value, before and after the repair *)
+Theorem flag_value_lemma : forall e v fl,
+  feval e = Ok (v, fl) -> exists w, fvalue e = Some w /\ (v == w)%Q.
 Proof.
+  unfold feval.
   induction e as [q|e IH|e IH|a IHa b IHb|a IHa b IHb|a IHa b IHb|a IHa b IHb];
-    intros v fl Hu H; cbn [feval uses_approx] in *; try discriminate.
-  - injection H as _ <-. reflexivity.
-  - destruct (feval e) as [[v0 f0]| |] eqn:E; cbn [bind] in H; try discriminate. injection H as _ <-.
-    cbn [snd]. eapply IH; eauto.
-  - apply Bool.orb_false_iff in Hu as [Ua Ub].
-    destruct (feval a) as [[va fa]| |] eqn:Ea; cbn [bind] in H; try discriminate.
-    destruct (feval b) as [[vb fb]| |] eqn:Eb; cbn [bind] in H; try discriminate.
-    assert (fa = true) by (eapply IHa; eauto). assert (fb = true) by (eapply IHb; eauto). subst.
-    unfold vadd in H. cbn [fst snd] in H. destruct (qzero vb); injection H as _ <-; reflexivity.
-  - apply Bool.orb_false_iff in Hu as [Ua Ub].
-    destruct (feval a) as [[va fa]| |] eqn:Ea; cbn [bind] in H; try discriminate.
-    destruct (feval b) as [[vb fb]| |] eqn:Eb; cbn [bind] in H; try discriminate.
-    assert (fa = true) by (eapply IHa; eauto). assert (fb = true) by (eapply IHb; eauto). subst.
-    unfold vadd in H. cbn [fst snd] in H. destruct (qzero (- vb)); injection H as _ <-; reflexivity.
-  - apply Bool.orb_false_iff in Hu as [Ua Ub].
-    destruct (feval a) as [[va fa]| |] eqn:Ea; cbn [bind] in H; try discriminate.
-    destruct (feval b) as [[vb fb]| |] eqn:Eb; cbn [bind] in H; try discriminate.
-    assert (fa = true) by (eapply IHa; eauto). assert (fb = true) by (eapply IHb; eauto). subst.
-    injection H as _ <-. reflexivity.
-  - apply Bool.orb_false_iff in Hu as [Ua Ub].
-    destruct (feval a) as [[va fa]| |] eqn:Ea; cbn [bind] in H; try discriminate.
-    destruct (feval b) as [[vb fb]| |] eqn:Eb; cbn [bind] in H; try discriminate.
-    assert (fa = true) by (eapply IHa; eauto). assert (fb = true) by (eapply IHb; eauto). subst.
-    cbn [fst snd] in H. destruct (qzero vb); try discriminate. injection H as _ <-. reflexivity.
+    intros v fl H; cbn [feval_with fvalue] in *.
+  - injection H as <- _. exists q. split; reflexivity.
+  - destruct (feval_with vadd e) as [[v0 f0]| |]; cbn [bind] in H; try discriminate. injection H as <- _.
+    destruct (IH _ _ eq_refl) as (w & -> & Hw). exists w. auto.
+  - destruct (feval_with vadd e) as [[v0 f0]| |]; cbn [bind] in H; try discriminate. injection H as <- _.
+    destruct (IH _ _ eq_refl) as (w & -> & Hw). exists (- w)%Q. split; [reflexivity|]. cbn [fst]. rewrite Hw. reflexivity.
+  - destruct (feval_with vadd a) as [[va fa]| |]; cbn [bind] in H; try discriminate.
+    destruct (feval_with vadd b) as [[vb fb]| |]; cbn [bind] in H; try discriminate.
+    destruct (IHa _ _ eq_refl) as (wa & -> & Ha). destruct (IHb _ _ eq_refl) as (wb & -> & Hb).
+    exists (wa + wb)%Q. split; [reflexivity|]. unfold vadd in H. cbn [fst snd] in H.
+    destruct (qzero vb) eqn:Ez; injection H as <- _.
+    + apply qzero_iff in Ez. rewrite <- Ha, <- Hb, Ez. ring.
+    + rewrite Ha, Hb. reflexivity.
+  - destruct (feval_with vadd a) as [[va fa]| |]; cbn [bind] in H; try discriminate.
+    destruct (feval_with vadd b) as [[vb fb]| |]; cbn [bind] in H; try discriminate.
+    destruct (IHa _ _ eq_refl) as (wa & -> & Ha). destruct (IHb _ _ eq_refl) as (wb & -> & Hb).
+    exists (wa - wb)%Q. split; [reflexivity|]. unfold vadd in H. cbn [fst snd] in H.
+    destruct (qzero (- vb)) eqn:Ez; injection H as <- _.
+    + apply qzero_iff in Ez. rewrite <- Ha, <- Hb. unfold Qminus. rewrite Ez. ring.
+    + rewrite Ha, Hb. reflexivity.
+  - destruct (feval_with vadd a) as [[va fa]| |]; cbn [bind] in H; try discriminate.
+    destruct (feval_with vadd b) as [[vb fb]| |]; cbn [bind] in H; try discriminate.
+    destruct (IHa _ _ eq_refl) as (wa & -> & Ha). destruct (IHb _ _ eq_refl) as (wb & -> & Hb).
+    injection H as <- _. exists (wa * wb)%Q. split; [reflexivity|]. cbn [fst]. rewrite Ha, Hb. reflexivity.
+  - destruct (feval_with vadd a) as [[va fa]| |]; cbn [bind] in H; try discriminate.
+    destruct (feval_with vadd b) as [[vb fb]| |]; cbn [bind] in H; try discriminate.
+    destruct (IHa _ _ eq_refl) as (wa & -> & Ha). destruct (IHb _ _ eq_refl) as (wb & -> & Hb).
+    cbn [fst snd] in H. destruct (qzero vb) eqn:Ez; try discriminate. injection H as <- _.
+    assert (Ez2 : qzero wb = false).
+    { destruct (qzero wb) eqn:E2; [|reflexivity]. apply qzero_iff in E2. rewrite <- Hb in E2.
+      apply qzero_iff in E2. congruence. }
+    rewrite Ez2. exists (wa / wb)%Q. split; [reflexivity|]. cbn [fst]. rewrite Ha, Hb. reflexivity.
 Qed.
